@@ -110,7 +110,7 @@ def engine_env(name):
 # attribution of process deaths (mirror of world::attribute for rule "once")
 
 def crash_prop(cls):
-    return {"SCRIPT": "C10", "PANIC": "C11", "CONSUME": "C12", "ELIDE": "C13"}.get(cls, "C02")
+    return {"SCRIPT": "C10", "PANIC": "C11", "CONSUME": "C12", "ELIDE": "C13", "DIFF": "C07", "DEAD": "C16"}.get(cls, "C02")
 
 
 def classify_death(rc, stderr_text):
@@ -380,6 +380,13 @@ def run_scale_job(job, prop, seed, tag):
                 problems.append("%d worklist pops for %d objects and %d adoption records" % (data["pops"], n, edges_all))
             if data["entries"] > 4 * edges_all + 2 * n:
                 problems.append("%d table entries scanned for %d objects and %d adoption records" % (data["entries"], n, edges_all))
+            if sh == "aftermath":
+                # the cost of small collections must not depend on how large a group was collected
+                # earlier in the same process (bytes requested are deterministic; CPU time as a backstop)
+                if data["small_after_bytes"] > 2 * data["small_before_bytes"] + 65536:
+                    problems.append("400 two-object cycles requested %d bytes from the allocator before a %d-object collection and %d bytes after it" % (data["small_before_bytes"], n, data["small_after_bytes"]))
+                elif data["small_after_cpu_us"] > 20 * data["small_before_cpu_us"] + 50000:
+                    problems.append("400 two-object cycles took %d us before a %d-object collection and %d us after it" % (data["small_before_cpu_us"], n, data["small_after_cpu_us"]))
             if data["group_members"] != n or data["drops"] != n:
                 problems.append("group of %d: %d members torn down, %d destructors ran" % (n, data["group_members"], data["drops"]))
             if data["max_depth"] > 1:
@@ -532,7 +539,8 @@ def cmd_check(prop, tier, seed, only_engines=None, evidence=True):
     for e in engines:
         build_s[e] = round(build_engine(e), 1)
     log("[%s/%s] engines built %s, %d job(s), seed %d" % (prop, tier, build_s, len(plan["jobs"]), seed))
-    known = [k for k in load_known() if k.get("property") == prop and k.get("status") == "known"]
+    known_all = [k for k in load_known() if k.get("status") == "known"]
+    known = [k for k in known_all if k.get("property") == prop]
     accept = {tuple(x) for x in plan.get("accept_foreign", [])}
     total = {}
     per_job = []
@@ -556,6 +564,14 @@ def cmd_check(prop, tier, seed, only_engines=None, evidence=True):
                 v.setdefault("job", job["label"])
                 v.setdefault("job_args", job["args"])
                 jv += 1
+                sig0 = v.get("known_sig") or ""
+                other = next((k for k in known_all if sig0 and k.get("signature", {}).get("sig") == sig0 and k.get("property") != prop), None)
+                if other is not None:
+                    # a documented finding of another property surfaced in this workload (e.g. the
+                    # stale-record finding of C13 in a scripted history): it belongs to that property
+                    v["prop"] = other["property"]
+                    foreign.append(v)
+                    continue
                 if v.get("prop") != prop:
                     # a rule that belongs to another property by workload class may also express
                     # this property (listed explicitly in the plan)
